@@ -45,6 +45,7 @@ def finish(pid, tier, seed, results, reg, assumed, wall, known, match_known):
     undecided = []
     samples = []
     cross_evals = 0
+    ns_evals = ns_distinct = 0
     cross_mismatch = []
     contracts_used = set()
     for name, r in units + lemmas:
@@ -66,13 +67,29 @@ def finish(pid, tier, seed, results, reg, assumed, wall, known, match_known):
             nat = rp.get('native') or {}
             confirmed = bool(nat.get('violated'))
             k = match_known(known, pid, name, o['clause'], o.get('trace'))
-            entry = {'obligation': o['id'], 'clause': o['clause'], 'unit': name, 'inputs': rp.get('inputs'), 'native': nat,
+            entry = {'obligation': o['id'], 'clause': o['clause'], 'unit': name, 'inputs': rp.get('inputs'), 'native': nat, 'pickle': rp.get('pickle'),
                      'confirmed_natively': confirmed, 'backend': o['backend'], 'model': o.get('model'), 'trace': o.get('trace'), 'goal': o.get('goal'),
                      'reason': o.get('reason')}
             if k is not None:
                 known_hits.append((k, entry))
             else:
                 violations.append(entry)
+        ns = r.get('native_sampling')
+        if ns:
+            ns_evals += ns['evaluations']
+            ns_distinct += ns['distinct']
+            for nv in ns['violations']:
+                already = any(v_['unit'] == name and any(cl.split(':', 1)[-1] in v_['clause'] for cl in nv['clauses']) for v_ in violations)
+                if already:
+                    continue
+                k = match_known(known, pid, name, " ".join(nv['clauses']), None)
+                entry = {'obligation': name + '/native:' + nv['clauses'][0], 'clause': " ".join(nv['clauses']), 'unit': name, 'inputs': nv['inputs'],
+                         'native': {'violated': nv['clauses'], 'observation': nv['observation']}, 'confirmed_natively': True, 'backend': 'native contract evaluation',
+                         'model': None, 'trace': None}
+                if k is not None:
+                    known_hits.append((k, entry))
+                else:
+                    violations.append(entry)
         cc = r.get('crosscheck')
         if cc:
             cross_evals += cc['evaluations'] - cc['skipped_unsupported']
@@ -85,7 +102,8 @@ def finish(pid, tier, seed, results, reg, assumed, wall, known, match_known):
         undecided.append({'obligation': '%s:%s' % (kind, name), 'reason': 'job exceeded its wall-clock limit and was stopped (undecided, not a violation)'})
     canaries_run = len(canaries)
     canaries_killed = sum(1 for _, r in canaries if r.get('killed'))
-    weak = [r for _, r in canaries if not r.get('killed')]
+    weak = [r for _, r in canaries if not r.get('flagged', r.get('killed'))]
+    canaries_flagged = sum(1 for _, r in canaries if r.get('flagged') and not r.get('killed'))
     b_evals = b_distinct = 0
     b_rules = []
     for name, r in boundeds:
@@ -102,7 +120,7 @@ def finish(pid, tier, seed, results, reg, assumed, wall, known, match_known):
             for kf in known:
                 if kf.get('status') == 'known' and kf.get('property') == pid and kf.get('bounded') == name and kf.get('key') == v.get('key'):
                     k = kf
-            entry = {'obligation': 'bounded:' + name, 'clause': v['what'], 'unit': name, 'inputs': v['inputs'], 'native': {'violated': [v['what']], 'observation': v.get('repro')},
+            entry = {'obligation': 'bounded:' + name, 'clause': v['what'], 'finding_key': v.get('key'), 'unit': name, 'inputs': v['inputs'], 'native': {'violated': [v['what']], 'observation': v.get('repro')},
                      'confirmed_natively': True, 'backend': 'native run', 'model': None, 'trace': None}
             if k is not None:
                 known_hits.append((k, entry))
@@ -122,7 +140,8 @@ def finish(pid, tier, seed, results, reg, assumed, wall, known, match_known):
         with open(path, 'w') as fh:
             json.dump({'property': pid, **v}, fh, indent=1, default=str)
         tail = "" if v['confirmed_natively'] else " no-failing-input-found"
-        out_lines.append("VIOLATION property=%s replay=%s obligation=%s%s" % (pid, path, v['obligation'], tail))
+        fk = (" finding=%s" % v['finding_key']) if v.get('finding_key') else ""
+        out_lines.append("VIOLATION property=%s replay=%s obligation=%s%s%s" % (pid, path, v['obligation'], fk, tail))
         vio_files.append(path)
     for u in undecided[:40]:
         out_lines.append("UNDECIDED obligation=%s reason=%s" % (u['obligation'], (u['reason'] or '')[:200]))
@@ -158,10 +177,11 @@ def finish(pid, tier, seed, results, reg, assumed, wall, known, match_known):
         'by_backend': by_backend, 'solver_secs': round(solver_secs, 2),
         'units_under_contract': sorted(n for n, _ in units), 'lemmas': sorted(n for n, _ in lemmas),
         'undecided': undecided[:50],
-        'canaries_run': canaries_run, 'canaries_killed': canaries_killed,
+        'canaries_run': canaries_run, 'canaries_killed': canaries_killed, 'canaries_flagged_undecided': canaries_flagged,
+        'unit_native_sampling_evaluations': ns_evals,
         'canary_details': [r for _, r in canaries][:30],
         'engine_crosscheck_evaluations': cross_evals, 'engine_crosscheck_mismatches': len(cross_mismatch),
-        'evaluations': max(1, b_evals + cross_evals), 'distinct_nontrivial': max(2, b_distinct) if (b_evals or cross_evals) else 2,
+        'evaluations': max(1, b_evals + cross_evals + ns_evals), 'distinct_nontrivial': max(2, b_distinct + ns_distinct),
         'rule': ("bounded stand-ins (never counted as proved): " + " | ".join(b_rules)) if b_rules else "engine cross-check inputs: boundary values of each builder plus seeded random values; distinct_nontrivial is not measured for them (reported conservatively as 2)",
         'samples': samples or [{'note': 'no samples'}],
         'bounded': {name: {k: r[k] for k in ('evaluations', 'distinct_nontrivial', 'rule', 'exhaustive') if k in r} for name, r in boundeds if not r.get('error')},
